@@ -998,8 +998,11 @@ impl Prop for Encodings {
         let k_gen = tier.pick(6, 60) as u64;
         let cases: Vec<HugeEnc> = [twin(false), twin(true)].into_iter().chain((0..k_gen).map(|k| crate::engine::sample_strategy(&strat, seed, "C10-huge", k))).collect();
         // the cases are independent: run them on threads, report the first failure in case order
-        let results: Vec<(Rec, CheckResult)> = std::thread::scope(|sc| {
-            let hs: Vec<_> = cases
+        // (eight at a time: each holds several copies of a CNF over 10^5 variables)
+        let mut results: Vec<(Rec, CheckResult)> = vec![];
+        for chunk in cases.chunks(8) {
+            let part: Vec<(Rec, CheckResult)> = std::thread::scope(|sc| {
+            let hs: Vec<_> = chunk
                 .iter()
                 .map(|c| {
                     sc.spawn(move || {
@@ -1020,7 +1023,12 @@ impl Prop for Encodings {
                 })
                 .collect();
             hs.into_iter().map(|h| h.join().unwrap()).collect()
-        });
+            });
+            results.extend(part);
+            if results.iter().any(|(_, o)| o.is_err()) {
+                break;
+            }
+        }
         for ((r, out), c) in results.into_iter().zip(cases) {
             rec.merge(r);
             if let Err(f) = out {
